@@ -351,6 +351,45 @@ def extract_cause(plat):
     return rows, icause, hp, conv, default
 
 
+C_INT_TYPES = {"int": (32, True), "signed": (32, True), "unsigned": (32, False), "short": (16, True), "long": (64, True),
+               "int8_t": (8, True), "int16_t": (16, True), "int32_t": (32, True), "int64_t": (64, True),
+               "uint8_t": (8, False), "uint16_t": (16, False), "uint32_t": (32, False), "uint64_t": (64, False),
+               "char": (8, True), "size_t": (64, False), "pid_t": (32, True)}
+
+
+def extract_cause_fields():
+    """the integer types of `struct Const`'s fields: (field, bits, signed) - a row whose constant does not fit
+    its field is silently truncated by the C compiler (the constants come from system-header macros)"""
+    c = strip_comments(read("src/low_level/extract.c"))
+    m = re.search(r"struct\s+Const\s*\{(.*?)\}\s*;", c, re.S)
+    if not m:
+        raise ExtractError("struct Const not found in extract.c")
+    out = []
+    for decl in m.group(1).split(";"):
+        decl = decl.strip()
+        if not decl:
+            continue
+        mm = re.fullmatch(r"((?:\w+\s+)+)(\w+)(\s*:\s*(\d+))?", decl)
+        if not mm:
+            raise ExtractError("struct Const field not understood: " + decl)
+        tys = [t for t in mm.group(1).split() if t not in ("const", "volatile")]
+        if len(tys) == 2 and tys[0] in ("signed", "unsigned") and tys[1] in C_INT_TYPES:
+            bits, signed = C_INT_TYPES[tys[1]][0], tys[0] == "signed"
+        elif len(tys) == 1 and tys[0] in C_INT_TYPES:
+            bits, signed = C_INT_TYPES[tys[0]]
+        else:
+            raise ExtractError("struct Const field type not understood: " + decl)
+        if mm.group(4):
+            bits = int(mm.group(4))
+        out.append((mm.group(2), bits, signed))
+    if [f for f, _, _ in out] != ["native", "signal", "translated"]:
+        raise ExtractError("struct Const fields changed: %s" % [f for f, _, _ in out])
+    # what the lookup compares against and returns
+    if not re.search(r"uint8_t\s+sighook_signal_cause\s*\(", c):
+        raise ExtractError("sighook_signal_cause no longer returns uint8_t")
+    return out
+
+
 def extract_channel_consts():
     src = strip_comments(read("src/low_level/channel.rs"))
     def const(name, ty):
@@ -831,6 +870,10 @@ def main():
     lines.append("def toCauseTable : List (Nat × Cause) := [%s]" %
                  ", ".join("(%d, %s)" % (d, CAUSE_LEAN[conv.get(n, default)]) for n, d in icause))
     lines.append("def toCauseDefault : Cause := %s" % CAUSE_LEAN[default])
+    cfields = attempt("cause_fields", extract_cause_fields, [])
+    lines.append("\n/-- integer types of the fields of `struct Const` (extract.c): (field, bits, signed) -/")
+    lines.append("def constFields : List (String × Nat × Bool) := [%s]" %
+                 ", ".join('("%s", %d, %s)' % (f_, b_, "true" if sg_ else "false") for f_, b_, sg_ in cfields))
     lines.append("\nend SigHook.Gen\n")
     write_if_changed(os.path.join(OUT, "Cause.lean"), "\n".join(lines))
 
